@@ -4,8 +4,8 @@ use proc_macro2::{Span, TokenStream};
 use quote::{format_ident, quote, ToTokens};
 use structmeta::{Flag, NameArgs, NameValue, Parse, StructMeta};
 use syn::{
-    parse::Parse, parse2, parse_quote, spanned::Spanned, token, Attribute, Data, DataEnum,
-    DataStruct, DeriveInput, Error, Expr, ExprLit, Field, Fields, Ident, Index, ItemEnum,
+    ext::IdentExt, parse::Parse, parse2, parse_quote, spanned::Spanned, token, Attribute, Data,
+    DataEnum, DataStruct, DeriveInput, Error, Expr, ExprLit, Field, Fields, Ident, Index, ItemEnum,
     ItemStruct, Lit, Meta, Path, Result, Type, Variant,
 };
 
@@ -589,14 +589,17 @@ fn build_debug_expr(
             true => quote!(debug_struct),
             false => quote!(debug_tuple),
         };
-        expr.extend(quote!(f.#debug_x(::core::stringify!(#ident))));
+        let name = ident.unraw().to_string();
+        expr.extend(quote!(f.#debug_x(#name)));
         for field in fields {
             if !field.hattrs.is_debug_ignore() {
                 let e = to_expr(field);
-                let member = field.member();
-                expr.extend(match is_named {
-                    true => quote! (.field(::core::stringify!(#member), #e)),
-                    false => quote! (.field(#e)),
+                expr.extend(match &field.field.ident {
+                    Some(ident) => {
+                        let name = ident.unraw().to_string();
+                        quote! (.field(#name, #e))
+                    }
+                    None => quote! (.field(#e)),
                 });
                 field.push_bounds_to(use_bounds, kind, wcb);
             }
